@@ -1107,18 +1107,18 @@ theorem refusal_precedence_seq_max {S : Scheme} {r : Record} {op : Op S} {pk : S
 
 /-! ### 10. `set_public_key` with the signer's own key -/
 
-theorem valueOK_pubkey {S : Scheme} (hL : S.Lawful) (pk : S.PK) :
+theorem valueOK_pubkey {S : Scheme} (hL : S.Lawful) (pk : S.PK) (hk : KeyOK S pk) :
     ValueOK (S.enrKey pk) (pubValue S pk) := by
   obtain ⟨h1, h2, h3, h4⟩ := hL.key_not_reserved pk
   unfold ValueOK pubValue
   rw [if_neg h1, if_neg (by simp [h2]), if_neg h3, if_neg h4]
   split
-  · exact ⟨_, (hL.pub_len pk).1, rfl⟩
-  · exact Or.inl ⟨_, (hL.pub_len pk).1, rfl⟩
+  · exact ⟨_, hk.1, rfl⟩
+  · exact Or.inl ⟨_, hk.1, rfl⟩
 
-theorem checkReserved_pubkey {S : Scheme} (hL : S.Lawful) (pk : S.PK) :
+theorem checkReserved_pubkey {S : Scheme} (hL : S.Lawful) (pk : S.PK) (hk : KeyOK S pk) :
     checkReserved (S.enrKey pk) (encBytes (S.encodePub pk)) = .ok () :=
-  valueOK_checkReserved _ _ (valueOK_pubkey hL pk)
+  valueOK_checkReserved _ _ (valueOK_pubkey hL pk hk)
 
 theorem newContent_setPublicKey_own (S : Scheme) (pk : S.PK) (c : Content) :
     newContent S (.setPublicKey pk) pk c = withPubkey S c pk := by
@@ -1152,13 +1152,13 @@ theorem checkSigningKey_own {S : Scheme} {c : Content} {pk : S.PK} (hs : Map.Sor
     `hread` says that the signer's key is the key read back once it is stored (true for every
     built-in key type when the record's key is the signer's key). -/
 theorem setPublicKey_own_error {S : Scheme} (hL : S.Lawful) {r : Record} {pk : S.PK} {e : EnrErr}
-    (hid : Map.lookup r.content kId = some (encBytes vV4))
+    (hk : KeyOK S pk) (hid : Map.lookup r.content kId = some (encBytes vV4))
     (hread : checkSigningKey S (withPubkey S r.content pk) pk = .ok ())
     (h : prepare S r (.setPublicKey pk) pk = .error e) : e = .exceedsMaxSize ∨ e = .seqTooHigh := by
   unfold prepare at h
   rcases prepareG_error_cause (by rfl) h with h1 | ⟨_, h1⟩
   · simp only [opPre] at h1
-    rw [checkReserved_pubkey hL pk] at h1
+    rw [checkReserved_pubkey hL pk hk] at h1
     cases h1
   · rw [newContent_setPublicKey_own] at h1
     rcases h1 with ⟨h2, _⟩ | ⟨h2, _⟩ | ⟨_, h2⟩ | ⟨_, _, h2⟩
@@ -1171,7 +1171,7 @@ theorem setPublicKey_own_error {S : Scheme} (hL : S.Lawful) {r : Record} {pk : S
 
 /-- … and it succeeds whenever the sizes and the sequence number allow it. -/
 theorem setPublicKey_own_ok {S : Scheme} (hL : S.Lawful) {r : Record} {pk : S.PK} {sig : Bytes}
-    (hid : Map.lookup r.content kId = some (encBytes vV4))
+    (hk : KeyOK S pk) (hid : Map.lookup r.content kId = some (encBytes vV4))
     (hread : checkSigningKey S (withPubkey S r.content pk) pk = .ok ())
     (hseq : r.seq + 1 < 2 ^ 64)
     (hfirst : ({ r with content := withPubkey S r.content pk } : Record).size ≤ 300)
@@ -1179,7 +1179,7 @@ theorem setPublicKey_own_ok {S : Scheme} (hL : S.Lawful) {r : Record} {pk : S.PK
     step S r (.setPublicKey pk) pk (some sig) =
       (.ok .unit, ⟨r.seq + 1, nodeIdOf S pk, withPubkey S r.content pk, sig⟩) := by
   have := step_ok_of (S := S) (r := r) (op := .setPublicKey pk) (pk := pk) (sig := sig) (by rfl)
-    (by simp only [opPre]; exact checkReserved_pubkey hL pk)
+    (by simp only [opPre]; exact checkReserved_pubkey hL pk hk)
     (by intro _; rw [newContent_setPublicKey_own]; exact hfirst) hseq
     (by rw [newContent_setPublicKey_own]; exact id_withPubkey hL r pk hid)
     (by rw [newContent_setPublicKey_own]; exact hread)
